@@ -165,9 +165,10 @@ func merge(logs []*glog) []Ev {
 // ---------------------------------------------------------------- child servers
 
 type child struct {
-	cmd  *exec.Cmd
-	port int
-	log  string
+	cmd    *exec.Cmd
+	port   int
+	log    string
+	exited chan struct{} // closed when the process has been reaped
 }
 
 func freePort(lo, hi int, taken map[int]bool) (int, error) {
@@ -204,12 +205,27 @@ func startServer(bin, dir string, port int, slaveof string) (*child, error) {
 	if err := cmd.Start(); err != nil {
 		return nil, err
 	}
-	c := &child{cmd, port, logf}
+	c := &child{cmd: cmd, port: port, log: logf}
+	// reap the child so that an early exit (e.g. the port was grabbed by a concurrent check between the probe and the
+	// bind) is noticed instead of mistaking the other process's listener for our server; sets cmd.ProcessState
+	exited := make(chan struct{})
+	c.exited = exited
+	go func() { _ = cmd.Wait(); close(exited) }()
 	deadline := time.Now().Add(20 * time.Second)
 	for time.Now().Before(deadline) {
+		select {
+		case <-exited:
+			return nil, fmt.Errorf("server on port %d exited during start-up (see %s)", port, logf)
+		default:
+		}
 		conn, err := net.DialTimeout("tcp", fmt.Sprintf("127.0.0.1:%d", port), 200*time.Millisecond)
 		if err == nil {
 			conn.Close()
+			select {
+			case <-exited:
+				return nil, fmt.Errorf("server on port %d exited during start-up, the port is served by another process (see %s)", port, logf)
+			case <-time.After(150 * time.Millisecond):
+			}
 			return c, nil
 		}
 		time.Sleep(50 * time.Millisecond)
@@ -223,13 +239,11 @@ func (c *child) stop() {
 		return
 	}
 	_ = c.cmd.Process.Signal(syscall.SIGTERM)
-	done := make(chan struct{})
-	go func() { _, _ = c.cmd.Process.Wait(); close(done) }()
 	select {
-	case <-done:
+	case <-c.exited:
 	case <-time.After(3 * time.Second):
 		_ = c.cmd.Process.Kill()
-		<-done
+		<-c.exited
 	}
 }
 
